@@ -66,6 +66,12 @@ CHECKS.update({
                 ref='3 C20', note='Trusted: the parser and replay in harness/inot.c, the shim\'s read(2) hook, gcc ASan/UBSan. Real inotify on the local filesystem of the sandbox.'),
 })
 
+CHECKS.update({
+    'C10': dict(cat='exploration', tech='sigaction trampoline (one event per kernel delivery) + writes to the interests\' descriptors inside the library\'s signal handler (set woken) + handler-entry log; fan-out, hand-over, disposition and run obligations checked online and at detected quiescence',
+                text='Multi-thread interest sets (exclusive / shared / this-thread) under thread-directed and process-directed deliveries, deliveries during handlers, register/unregister from handlers, forked children: for every unambiguous delivery the set woken must follow the documented fan-out; every woken interest must run in its thread by quiescence; a noted exclusive delivery must be handed over at unregister; SIG_DFL must be back after the last interest; no handler may run without a delivery (forked child).',
+                ref='3 C10', note=MT_NOTE + ' Senders serialise per signal number; eventfd back-ends only.'),
+})
+
 NOT_YET = {
 }
 
